@@ -215,6 +215,12 @@ func typeName(t types.Type) string {
 	case *types.Map:
 		return "map[" + typeName(x.Key()) + "]" + typeName(x.Elem())
 	case *types.Basic:
+		switch x.Kind() {
+		case types.Uint8:
+			return "uint8"
+		case types.Int32:
+			return "int32"
+		}
 		return x.Name()
 	case *types.TypeParam:
 		return "$" + x.Obj().Name()
